@@ -138,6 +138,33 @@ def edits(spec, r):
     s = copy.deepcopy(spec)
     s["ctcs"].append({"name": "extra", "ast": ["REQUIRES", names[0], fresh]})
     yield "ctc:add", s
+    # multiplicities: [x, x, y] versus [x, y, y] (same length, same distinct constraints)
+    if len(names) >= 2:
+        x, y = ["REQUIRES", names[0], names[1]], ["EXCLUDES", names[1], names[0]]
+        a = copy.deepcopy(spec)
+        a["ctcs"] = list(a["ctcs"]) + [{"name": "m1", "ast": x}, {"name": "m2", "ast": x}, {"name": "m3", "ast": y}]
+        b = copy.deepcopy(spec)
+        b["ctcs"] = list(b["ctcs"]) + [{"name": "m1", "ast": x}, {"name": "m2", "ast": y}, {"name": "m3", "ast": y}]
+        yield "ctc:multiplicity", (a, b)
+    # names whose concatenation coincides with another name: an alternative group {B, C} under P and a
+    # mandatory child named "B C" under X, versus the same features with the two owners swapped
+    if len(names) >= 2:
+        base = copy.deepcopy(spec)
+        fs = list(S.features(base["root"]))
+        p_, x_ = fs[0], fs[-1] if fs[-1] is not fs[0] else None
+        if x_ is not None:
+            n1, n2 = "Jb" + fresh, "Jc" + fresh
+            joined = " ".join(sorted([n1, n2]))
+            a = copy.deepcopy(base)
+            b = copy.deepcopy(base)
+            for m_, first in ((a, True), (b, False)):
+                fm = list(S.features(m_["root"]))
+                pp, xx = fm[0], fm[-1]
+                grp = {"min": 1, "max": 1, "children": [{"name": n1, "rels": []}, {"name": n2, "rels": []}]}
+                one = {"min": 1, "max": 1, "children": [{"name": joined, "rels": []}]}
+                (pp if first else xx)["rels"].append(grp)
+                (xx if first else pp)["rels"].append(one)
+            yield "names:ambiguous-join", (a, b)
 
 
 def change_op(ast):
@@ -339,6 +366,13 @@ def run_case(acc, source, spec, r):
     # constraint: letter case is ignored by design (not required by the property, only tolerated)
     # --- single edits
     for name, es in edits(spec, r):
+        if isinstance(es, tuple):
+            # a pair of models (both derived from spec) that must be unequal to each other
+            ma, mb = S.build(es[0]), S.build(es[1])
+            payload2 = dict(payload, spec=es[0], other=es[1], edit=name)
+            good &= contract(acc, source, payload2, ma, mb, False, "FeatureModel", name)
+            acc.count("edit:" + name)
+            continue
         if S.canon_tree(es["root"], ()) == S.canon_tree(spec["root"], ()) and \
                 sorted(S.digest(c["ast"]) for c in es["ctcs"]) == sorted(S.digest(c["ast"]) for c in spec["ctcs"]):
             acc.count("edit-was-noop:" + name)
